@@ -10,6 +10,14 @@ requested channel's bytes of that chunk -- or is a 4-byte tag check of a segment
 the first and last segment overlapping the request; indexing again into the chunk just
 read fetches nothing; the total is bounded by the request.  Correspondence: the set of
 chunks touched is compared with lz_plan / read_at_index evaluated inside Coq.
+Byte level (Props/C19_bytes.v: ranges_within_request, bytes_bounded_by_request): for every file
+and channel the recorded list of reads -- positions and sizes, in order, zero-length reads
+included -- of every window, slice and index request is compared for EQUALITY with
+Model/LazyRanges.v (lz_ranges / lz_slice_ranges / lz_index_ranges) evaluated inside Coq on the
+same file bytes (reader state of Model/Reader.v rd_metadata, as LazyBytes.channel_view); for
+string channels after merging adjacent reads on both sides (the model lists a string block as
+one read of its declared size).  The same evaluation checks that the state satisfies ranges_inv,
+the hypothesis of the theorems.
 """
 import json
 import logging
@@ -23,6 +31,8 @@ import common as H
 H.ensure_env()
 
 import lazygen as G  # noqa: E402
+import tdmsgen as TG  # noqa: E402  (DAQmx files: independent encoder of C01 / C11)
+import daqmxgen as DQ  # noqa: E402
 from nptdms import TdmsFile  # noqa: E402
 import nptdms.log  # noqa: E402
 import c04 as K  # noqa: E402  (shared Coq printers, window / slice enumerations)
@@ -30,11 +40,35 @@ import c04 as K  # noqa: E402  (shared Coq printers, window / slice enumerations
 nptdms.log.log_manager.set_level(logging.ERROR)
 
 IMPORTS = K.IMPORTS
+RANGE_IMPORTS = ("From NpTdms Require Import Base.Bytes Base.Res Base.PySlice Model.Tokens Model.SegState Model.Layout "
+                 "Model.Reader Model.LazyRead Model.LazyBytes Model.LazyRanges.\nOpen Scope Z_scope.\n")
+RANGE_TYPE = "bytes * list chan_case"
 cz, copt, clist = H.cz, H.copt, H.clist
 
 
 def c_pairs(ps):
     return clist(["(%s, %s)" % (cz(a), cz(b)) for a, b in sorted(ps)])
+
+
+def c_reads(log):
+    """the recorded reads, in order, nothing dropped"""
+    return clist(["(%s, %s)" % (cz(a), cz(b)) for a, b in log])
+
+
+def c_oreads(log):
+    return "None" if log is None else "(Some %s)" % c_reads(log)
+
+
+def chan_path(chan):
+    return chan if isinstance(chan, bytes) else G.path(chan).encode("utf-8")
+
+
+def range_case(data, chan, wins, slices, steps):
+    """one (file, channel) case of type RANGE_TYPE for LazyRanges.agree_file"""
+    ws = clist(["(%s, %s, %s)" % (cz(o), copt(l, cz), c_reads(log)) for (o, l, log) in wins])
+    ss = clist(["(%s, %s, %s, %s)" % (copt(a, cz), copt(b, cz), copt(k, cz), c_oreads(log)) for (a, b, k, log) in slices])
+    st = clist(["(%s, %s)" % (cz(i), c_oreads(log)) for (i, log) in steps])
+    return '(hex "%s", [(hex "%s", %s, %s, %s)])' % (data.hex(), chan_path(chan).hex(), ws, ss, st)
 
 
 class Layout:
@@ -118,6 +152,8 @@ class Ctx:
         self.chan_defs = []
         self.cases = {"plan": [], "slice": [], "index": []}
         self.meta = {"plan": [], "slice": [], "index": []}
+        self.rcases = []          # byte-level cases (one per file and channel) and what they were built from
+        self.rmeta = []
         self.keycount = {}
         self.flagged = set()
         self.bytes_fetched = 0
@@ -162,6 +198,7 @@ def run_file(ctx, spec, rng, label, vol):
             cname = ctx.add_chan(cd)
             base = {"spec": spec, "file_hex": hexfile, "channel": c}
             run.count("channels")
+            rwin, rsl, ridx, ridx_ok = [], [], [], True
             # ---- read_data windows
             for (o, l) in K.window_lists(n, rng, 12, vol["win_samples"]):
                 hi = n if l is None else min(n, o + l)
@@ -183,6 +220,7 @@ def run_file(ctx, spec, rng, label, vol):
                 if isinstance(r, int):
                     ctx.cases["plan"].append("(%s, %s, %s, %s)" % (cname, cz(o), copt(l, cz), c_pairs(touched)))
                     ctx.meta["plan"].append((tag, base, (o, l), sorted(touched)))
+                    rwin.append((o, l, log))
                 if len(chunks) >= 1 and len(lay.ranges) > len(chunks):
                     run.cov["distinct_nontrivial"] += 1
             # ---- slices
@@ -215,6 +253,7 @@ def run_file(ctx, spec, rng, label, vol):
                                   % (a, b, k, c, dt, n, len(data), "; ".join(problems[:3])),
                                   dict(base, op="slice", start=a, stop=b, step=k), sorted(chunks), log, tag)
                 if isinstance(r, int) or r == "V":
+                    rsl.append((a, b, k, log if isinstance(r, int) else None))
                     ctx.cases["slice"].append("(%s, %s, %s, %s, %s)" % (cname, copt(a, cz), copt(b, cz), copt(k, cz),
                                                                        c_pairs(touched)))
                     ctx.meta["slice"].append((tag, base, (a, b, k), sorted(touched)))
@@ -245,6 +284,10 @@ def run_file(ctx, spec, rng, label, vol):
                                   % (i, c, dt, n, "; ".join(problems[:3])), dict(base, op="index", index=i),
                                   sorted(chunks), log, tag)
                 steps.append("(%s, %s)" % (cz(i), c_pairs(touched)))
+                if r is True or r == "I":
+                    ridx.append((i, log if r is True else None))
+                else:
+                    ridx_ok = False
                 if own:
                     run.cov["distinct_nontrivial"] += 1
                     # every other index of the chunk just read (and the same one again) must cost nothing
@@ -260,11 +303,137 @@ def run_file(ctx, spec, rng, label, vol):
                                               dict(base, op="reindex", index=i, again=jj), [], list(rs.log),
                                               (cname, "index", i))
                             steps.append("(%s, %s)" % (cz(jj), c_pairs([])))
+                            if r2 is True or r2 == "I":
+                                ridx.append((jj, list(rs.log) if r2 is True else None))
+                            else:
+                                ridx_ok = False
             ctx.cases["index"].append("(%s, %s)" % (cname, clist(steps)))
             ctx.meta["index"].append(((cname, "indexseq"), base, order, None))
+            if ch.data_type is not None:
+                cap = vol.get("range_slice_cap")
+                if cap and len(rsl) > cap:        # thorough tier: an evenly spaced subset of the slice requests
+                    rsl = rsl[::-(-len(rsl) // cap)]
+                ctx.rcases.append(range_case(data, c, rwin, rsl, ridx if ridx_ok else []))
+                ctx.rmeta.append(dict(cname=cname, base=base, data=data, chan=c, wins=rwin, slices=rsl,
+                                      steps=ridx if ridx_ok else []))
+                run.count("byte_range_requests_compared", len(rwin) + len(rsl) + (len(ridx) if ridx_ok else 0))
             if len(run.cov["samples"]) < 4 and "z" in spec["channels"] and n:
                 run.sample({"channel": c, "values": n, "file_bytes": len(data),
                             "chunks": [{"segment": i, "chunk": cc, "values": [s, e]} for (i, cc, s, e) in lay.ranges][:8]})
+
+
+def build_daqmx(rng):
+    """a DAQmx file (independent encoder tdmsgen / daqmxgen), possibly cut inside its last segment, with the
+    description Layout needs: per channel the number of values each chunk holds, per segment the byte layout"""
+    truncate = rng.random() < 0.4
+    widths, rows, chans = DQ.gen_daqmx_layout(rng, one_buffer_per_channel=truncate)
+    cs = DQ.chunk_size(widths, rows)
+    e = rng.choice("<>")
+    segs = []
+    for si in range(rng.randint(1, 3)):
+        nchunks = rng.randint(1, 3)
+        raw = bytes(rng.randrange(256) for _ in range(cs * nchunks))
+        r = rng.random()
+        if si == 0 or r < 0.4:
+            entries, toc = DQ.daqmx_entries(widths, chans), TG.TOC_META | TG.TOC_RAW | TG.TOC_DAQMX | TG.TOC_NEWLIST
+        elif r < 0.7:
+            entries, toc = None, TG.TOC_RAW | TG.TOC_DAQMX
+        else:
+            entries, toc = [TG.Entry(c.path, "prev") for c in chans], TG.TOC_META | TG.TOC_RAW | TG.TOC_DAQMX
+        segs.append(TG.Seg(e=e, toc=toc, entries=entries, data=raw))
+    data = TG.ser_file(segs)
+    avail_last = None
+    if truncate and cs > 0 and len(segs[-1].data) > 1:
+        cut = rng.randint(1, min(len(segs[-1].data), cs * 2 - 1))
+        avail_last = DQ.truncated_avail(widths, rows, len(segs[-1].data) - cut)
+        data = data[:len(data) - cut]
+    seglay, pos = [], 0
+    per_seg_avail = []
+    for si, sg in enumerate(segs):
+        blob = TG.ser_seg(sg)
+        avail = DQ.full_avail(rows, len(sg.data) // cs if cs else 0)
+        if avail_last is not None and si == len(segs) - 1:
+            avail = avail_last
+        per_seg_avail.append(avail)
+        seglay.append(dict(pos=pos, data_pos=pos + len(blob) - len(sg.data), chunk_bytes=cs, nchunks=len(avail),
+                           interleaved=True, layout={}))
+        pos += len(blob)
+    chandesc = {}
+    for c in chans:
+        b = c.scalers[0][1]
+        cs_segs = []
+        for avail in per_seg_avail:
+            partial = bool(avail) and avail[-1] != list(rows)
+            cs_segs.append(dict(chunk=c.n, nchunks=len(avail), final=(avail[-1][b] if partial else None), interleaved=True,
+                                vals=[[0] * a[b] for a in avail]))
+        chandesc[c.path] = dict(dtype="daqmx", segs=cs_segs)
+    desc = dict(channels=chandesc, segments=seglay, size=len(data))
+    return data, desc, chans, dict(widths=widths, rows=rows, truncated=avail_last is not None, nseg=len(segs))
+
+
+def run_daqmx_file(ctx, file_seed, vol):
+    """DAQmx layout: the recorded reads of read_data(o, l, scaled=False) and of channel[i] on typed channels
+    against the oracle (chunk bytes of overlapping chunks + tag checks) and against Model/LazyRanges.v.
+    The file and the requests are a function of file_seed (kept in the replay case)."""
+    run = ctx.run
+    rng = random.Random(file_seed)
+    data, desc, chans, info = build_daqmx(rng)
+    info = dict(info, daqmx_seed=file_seed)
+    hexfile = data.hex()
+    run.count("daqmx_files")
+    if info["truncated"]:
+        run.count("daqmx_files_truncated")
+    rs = G.RecStream(data)
+    try:
+        lazy = TdmsFile.open(rs)
+    except Exception as e:
+        run.violation("open-raises", "generated DAQmx file cannot be opened: %r" % (e,),
+                      {"op": "open-daqmx", "file_hex": hexfile, "info": info, "daqmx_seed": file_seed}, actual=repr(e))
+        return
+    with lazy:
+        for c in chans:
+            name = TG.parse_path(c.path)[1]
+            if "dq" not in lazy or name not in lazy["dq"]:
+                continue
+            ch = lazy["dq"][name]
+            lay = Layout(desc, c.path)
+            n = lay.n
+            if len(ch) != n:
+                continue                      # C11 reports a wrong length
+            cname = "daqmx_%d_%s" % (run.cov["evaluations"], name)
+            base = {"file_hex": hexfile, "channel": c.path.decode("utf-8"), "info": info, "daqmx_seed": file_seed}
+            run.count("daqmx_channels")
+            rwin, ridx = [], []
+            for (o, l) in list(vol.get("extra_windows", [])) + K.window_lists(n, rng, 8, vol["daqmx_win_samples"]):
+                hi = n if l is None else min(n, o + l)
+                chunks, tags = lay.allowed(o, max(o, hi)) if o <= n else (set(), set())
+                rs.reset_log()
+                r = K.observe(lambda: len(ch.read_data(o, l, scaled=False)))
+                log = list(rs.log)
+                run.cov["evaluations"] += 1
+                problems, touched, total = lay.analyse(log, chunks, tags)
+                ctx.bytes_fetched += total
+                ctx.bytes_files += len(data)
+                if problems:
+                    ctx.violation("daqmx-over-read", "read_data(%r, %r, scaled=False) on DAQmx channel %s (%d values, file of %d "
+                                  "bytes): %s" % (o, l, base["channel"], n, len(data), "; ".join(problems[:3])),
+                                  dict(base, op="daqmx-window", offs=o, len=l), sorted(chunks), log, (cname, "window", o, l))
+                if isinstance(r, int):
+                    rwin.append((o, l, log))
+                if len(chunks) >= 1 and len(lay.ranges) > len(chunks):
+                    run.cov["distinct_nontrivial"] += 1
+            if c.dt != TG.T_DAQMX:
+                for i in rng.sample(range(-n - 1, n + 1), min(2 * n + 2, 8)):
+                    rs.reset_log()
+                    r = K.observe(lambda: ch[i] is not None)
+                    run.cov["evaluations"] += 1
+                    if r is True or r == "I":
+                        ridx.append((i, list(rs.log) if r is True else None))
+                    else:
+                        break
+            ctx.rcases.append(range_case(data, c.path, rwin, [], ridx))
+            ctx.rmeta.append(dict(cname=cname, base=base, data=data, chan=c.path, wins=rwin, slices=[], steps=ridx))
+            run.count("byte_range_requests_compared", len(rwin) + len(ridx))
 
 
 def correspondence(ctx):
@@ -297,9 +466,77 @@ def correspondence(ctx):
                           actual=touched, no_input=True)
 
 
+def range_drilldown(run, m):
+    """which request of a disagreeing (file, channel) case differs, and what the model lists for it"""
+    import re
+    term = "diagnose_file %s" % range_case(m["data"], m["chan"], m["wins"], m["slices"], m["steps"])
+    rc, out = H.coq_print_terms(run.pid, RANGE_IMPORTS, [term], tag="drill")
+    flat = out.split(": list")[0]
+    lists = re.findall(r"\[([^\[\]]*)\]", flat)
+    tail = re.findall(r"\],\s*(true|false),\s*(true|false)\)", flat)
+    if rc != 0 or len(lists) < 2 or not tail:
+        return "the case (diagnosis could not be evaluated)", None, out[-600:]
+    wflags = [x.strip() == "true" for x in lists[0].split(";") if x.strip()]
+    sflags = [x.strip() == "true" for x in lists[1].split(";") if x.strip()]
+    idx_ok, inv_ok = tail[0][0] == "true", tail[0][1] == "true"
+    req, obs, show = None, None, None
+    if not inv_ok:
+        req = "the structural invariant ranges_inv of the reader state"
+    elif False in wflags:
+        w = m["wins"][wflags.index(False)]
+        req, obs = "read_data(%r, %r)" % (w[0], w[1]), w[2]
+        show = 'lz_ranges_bytes (hex "%s") (hex "%s") %s %s' % (m["data"].hex(), chan_path(m["chan"]).hex(), cz(w[0]),
+                                                               copt(w[1], cz))
+    elif False in sflags:
+        sl = m["slices"][sflags.index(False)]
+        req, obs = "channel[%r:%r:%r]" % tuple(sl[:3]), sl[3]
+    elif not idx_ok:
+        req, obs = "the index sequence %r" % [i for i, _ in m["steps"]][:40], [l for _, l in m["steps"]][:40]
+    else:
+        return "no single request reproduces the disagreement", None, None
+    model = None
+    if show:
+        rc, out = H.coq_print_terms(run.pid, RANGE_IMPORTS, [show], tag="drillshow")
+        model = out.strip()[-1500:]
+    return req, obs, model
+
+
+def correspondence_ranges(ctx, shard):
+    run = ctx.run
+    if not ctx.rcases:
+        return
+    run.count("coq_cases_byte_ranges", len(ctx.rcases))
+    bad, errors = H.run_sharded(run.pid, RANGE_IMPORTS, RANGE_TYPE, "agree_file", ctx.rcases, shard=shard,
+                                tag="ranges", timeout=1500)
+    run.corr_errors(errors)
+    if bad:
+        run.count("byte_range_cases_disagreeing_with_model", len(bad))
+    run.cov["traces_validated_against_impl"] += sum(
+        len(m["wins"]) + len(m["slices"]) + len(m["steps"]) for i, m in enumerate(ctx.rmeta) if i not in set(bad))
+    shown = 0
+    for i in bad:
+        m = ctx.rmeta[i]
+        if any(t[0] == m["cname"] for t in ctx.flagged):
+            continue          # the implementation already violates the oracle on this channel: reported with its input
+        shown += 1
+        if shown > 2:
+            break
+        req, obs, model = range_drilldown(run, m)
+        run.violation("corr-ranges", "the reads nptdms issues for %s on channel %s differ from the byte-range model "
+                      "(Model/LazyRanges.v) although every byte range satisfies the oracle: recorded %r"
+                      % (req, m["chan"], obs), dict(m["base"], op="corr-ranges", request=req),
+                      kind="correspondence-broken", theorem="Model.LazyRanges lz_ranges vs nptdms (agree_file)",
+                      actual=obs, model=model, no_input=True)
+
+
 def replay(run, case):
     ctx = Ctx(run)
     spec = case.get("spec")
+    if case.get("daqmx_seed") is not None:
+        extra = [(case["offs"], case["len"])] if case.get("op") == "daqmx-window" else []
+        run_daqmx_file(ctx, case["daqmx_seed"], dict(daqmx_win_samples=60, extra_windows=extra))
+        correspondence_ranges(ctx, 4)
+        return
     if spec is None:
         print("replay: nothing to re-run")
         return
@@ -344,17 +581,19 @@ def replay(run, case):
     else:
         run_file(ctx, spec, random.Random(run.seed), "replayed_files", dict(win_samples=80, slice_exh=5, slice_samples=200))
         correspondence(ctx)
+        correspondence_ranges(ctx, 4)
 
 
 def main():
     run = H.Run("C19")
-    run.prove()
+    run.prove(extra_files=("theories/Model/LazyRanges.v",))
     if run.replay:
         replay(run, json.load(open(run.replay))["case"])
         run.finish()
     rng = random.Random(run.seed)
     ctx = Ctx(run)
-    vol = dict(win_samples=run.pick(60, 150), slice_exh=run.pick(4, 7), slice_samples=run.pick(120, 500))
+    vol = dict(win_samples=run.pick(60, 150), slice_exh=run.pick(4, 7), slice_samples=run.pick(120, 500),
+               daqmx_win_samples=run.pick(25, 60), range_slice_cap=run.pick(None, 400))
     d3 = dict(channels={"a": "i32", "b": "i32"}, strw=3, segments=[
         dict(kind="new", be=False, objs=[["a", 4]], interleaved=False, nchunks=1),
         dict(kind="new", be=False, objs=[["b", 2]], interleaved=False, nchunks=1),
@@ -369,10 +608,14 @@ def main():
         run_file(ctx, spec, rng, "generated_files", vol)
         if it % 200 == 199 and run.thorough:
             correspondence(ctx)
+            correspondence_ranges(ctx, 12)
             keep = ctx.keycount, ctx.flagged, ctx.bytes_fetched, ctx.bytes_files
             ctx = Ctx(run)
             ctx.keycount, ctx.flagged, ctx.bytes_fetched, ctx.bytes_files = keep
+    for it in range(run.pick(40, 400)):
+        run_daqmx_file(ctx, rng.getrandbits(48), vol)
     correspondence(ctx)
+    correspondence_ranges(ctx, run.pick(8, 12))
     for k, v in sorted(ctx.keycount.items()):
         run.count("violations_" + k, v)
     run.count("bytes_fetched_total", ctx.bytes_fetched)
@@ -384,11 +627,23 @@ def main():
                        "order on one channel object, each followed by indexing again (positive and negative form) at the "
                        "bounds of and inside the chunk just read. Every recorded read()/readinto() is checked. "
                        "Non-trivial = a request whose allowed chunk set is non-empty and smaller than the channel's chunk "
-                       "set, or an in-range index." % vol["slice_exh"])
+                       "set, or an in-range index. Byte level: for every (file, channel) the complete recorded read list "
+                       "(position, bytes returned; zero-length reads included, order kept) of every one of these requests "
+                       "is compared for equality with Model/LazyRanges.v evaluated in Coq on the file bytes (string "
+                       "channels: after merging adjacent reads on both sides), and ranges_inv is evaluated on the reader "
+                       "state. DAQmx files (daqmxgen, 40%% cut inside the last segment): read_data(o, l, scaled=False) "
+                       "windows (exhaustive for n <= 8) and integer indices on typed channels, same two checks."
+                       % vol["slice_exh"])
     run.assumptions = ["the stream passed to TdmsFile.open is an unbuffered BytesIO subclass; OS / buffered-file prefetching "
                        "is below the stream interface and not observed",
                        "metadata reading at open time is not part of the claim (the log is reset after open)",
-                       "zero-length reads (a channel with no values in a truncated final chunk) are ignored",
+                       "the direct oracle ignores zero-length reads (fromfile's terminating readinto; a channel with no "
+                       "values in a truncated final chunk); the byte-level correspondence compares them",
+                       "read()/readinto() of the recording stream return min(requested, bytes left) in ONE call "
+                       "(in-memory stream): the model lists bytes RETURNED; a stream that returns short reads before EOF "
+                       "would show more, smaller reads over the same ranges",
+                       "string channels: the model lists a string block as one read of its declared size; the comparison "
+                       "merges adjacent reads on both sides for them (the only layout where equality is modulo merging)",
                        "for an empty window the chunk strictly containing the offset may be fetched (as the theorem states)",
                        "lz_plan models the REPAIRED read_raw_data_for_channel (dev/patches/D3.patch, D13.patch)"]
     run.finish()
